@@ -192,7 +192,7 @@ def check_wiring(prog: Program, res: Result) -> None:
                 if isinstance(st, ast.Assign) and isinstance(st.value, ast.Call):
                     n += 1
                     cls = norm(st.value.func)
-                    kw = {k.arg: norm(k.value) for k in st.value.keywords}
+                    kw = {k.arg: norm(astq.expand_at(td.node, k.value, st)) for k in st.value.keywords}
                     res.ob(R, cls == want, td.qualname, f"{mtype}: {norm(st.targets[0])} = {want}(...)", f"model type {mtype} builds a {cls}", f"{td.module.relpath}:{st.lineno}")
                     ok = kw.get("scale") == "self.config.data_config.preprocessing.scale" and kw.get("max_stride") == "self.max_stride" \
                         and kw.get("confmap_head_config") == f"self.config.model_config.head_configs.{mtype}.confmaps" and kw.get("max_hw") == "(self.max_height, self.max_width)" \
@@ -221,7 +221,7 @@ def check_wiring(prog: Program, res: Result) -> None:
                 if isinstance(st, ast.Assign) and isinstance(st.value, ast.Call):
                     n += 1
                     cls = norm(st.value.func)
-                    kw = {k.arg: norm(k.value) for k in st.value.keywords}
+                    kw = {k.arg: norm(astq.expand_at(ld.node, k.value, st)) for k in st.value.keywords}
                     res.ob(R, cls == want, ld.qualname, f"{mtype}: {want}", f"model type {mtype} streams through {cls}", f"{ld.module.relpath}:{st.lineno}")
                     ok = kw.get("confmap_head") == f"self.config.model_config.head_configs.{mtype}.confmaps" and kw.get("max_stride") == "self.max_stride"
                     if mtype == "bottomup":
